@@ -3278,13 +3278,61 @@ def _install(Interp):
                 return f
             return Builtin("wraps", apply)
 
+        def memoised(f):
+            """functools.lru_cache / functools.cache as they behave (fifth pass; they used to be modelled as the identity,
+            which is right for a pure function of immutable arguments only): results are remembered per argument tuple,
+            compared by the arguments' own __hash__ / __eq__ -- a method memoised on `self` keeps answering what it
+            answered first although the object was changed since, and that is exactly what C01.i must see.  An evicted
+            entry is recomputed, so an unbounded memo is the faithful over-approximation of every maxsize."""
+            memo = {}
+
+            def call(*a, **k):
+                for x in list(a) + list(k.values()):
+                    if isinstance(x, Obj) and isinstance(x._k_cref, ClassRef) and I.class_lookup(x._k_cref, "__eq__")[0] is not None and I.class_lookup(x._k_cref, "__hash__")[0] is None:
+                        I.throw(TypeError, "unhashable type: %r" % x._k_cref.qn.split(".")[-1])
+                key = (tuple(a), tuple(sorted(k.items())))
+                try:
+                    if key in memo:
+                        return memo[key]
+                except TypeError as ex:
+                    raise Raised(ex)
+                v = I.call(f, list(a), k)
+                memo[key] = v
+                return v
+            # binds like the function it wraps when it is defined in a class body
+            return SynthMethod("memoised:" + getattr(f, "name", "?"), call)
+
         def lru_cache(*a, **k):
-            if len(a) == 1 and not k and isinstance(a[0], (FuncVal, BoundMethod)):
-                return a[0]  # a pure function and its memoised form have the same values
-            return Builtin("lru_cache", identity)
+            if len(a) == 1 and not k and isinstance(a[0], (FuncVal, BoundMethod, SynthMethod)):
+                return memoised(a[0])
+            return Builtin("lru_cache", memoised)
 
         def cached_property(f):
-            return Property(f)
+            """functools.cached_property as it behaves: computed on the first read and from then on read from the
+            instance, until it is assigned or deleted (the host keeps the value in the instance dictionary under the
+            attribute's name; here under a key of its own, which copy/deepcopy carry along just the same)"""
+            key = "__k_cached_%d" % id(f)
+
+            def fget(o):
+                if not isinstance(o, INST):
+                    raise Unsupported("cached_property read on a %s value" % type(o).__name__)
+                if isinstance(o, Obj) and isinstance(o._k_cref, ClassRef) and I._slots(o._k_cref) is not None:
+                    I.throw(TypeError, "No '__dict__' attribute on instance to cache the property")
+                if key not in o._k_attrs:
+                    o._k_attrs[key] = I.call(f, [o], {})
+                return o._k_attrs[key]
+
+            def fset(o, v):
+                o._k_attrs[key] = v
+
+            def fdel(o):
+                if key not in o._k_attrs:
+                    I.throw(AttributeError, getattr(f, "name", "cached_property"))
+                del o._k_attrs[key]
+            keep.append(f)  # id(f) stays unique while the property exists
+            return Property(Builtin("cached_property.get", fget), Builtin("cached_property.set", fset), Builtin("cached_property.del", fdel))
+
+        keep = []
 
         def getLogger(*a):
             return NullLogger()
@@ -3336,6 +3384,149 @@ def _install(Interp):
             dc_need(o)
             return dc_conv(o, True)
 
+        # ---- copy.copy / copy.deepcopy (fifth pass: Message.copy() deep-copies the option set; whether the copy carries
+        # state it should not -- e.g. a memoised serialisation -- is decided by evaluating it).  The model follows
+        # Lib/copy.py: atomic values are returned as they are (numbers, strings, bytes, None, functions, classes, enum
+        # members -- Enum.__deepcopy__ returns self); containers are rebuilt element-wise with a memo (shared references
+        # stay shared, cycles terminate); an instance of a repository class is rebuilt through its own __deepcopy__ /
+        # __copy__ where it defines one, else without calling __init__ from a copy of its state (instance dictionary and
+        # slots; __getstate__ / __setstate__ honoured).  The __reduce__ family, a user-defined __new__, exceptions and
+        # bound methods are refused, never guessed.
+        _ATOMIC = (type(None), bool, int, float, complex, str, bytes, range, type, type(Ellipsis), type(NotImplemented))
+
+        def _copy_protocol(x, deep):
+            """(special method to call or None) for an instance of a repository class; refuses the protocols not modelled"""
+            cref = x._k_cref
+            for dn in ("__reduce_ex__", "__reduce__", "__getnewargs__", "__getnewargs_ex__"):
+                if I.class_lookup(cref, dn)[0] is not None:
+                    raise Unsupported("copy of an instance of %s, which defines %s" % (cref.qn, dn))
+            if isinstance(x, Obj):
+                if I.class_lookup(cref, "__new__")[0] is not None:
+                    raise Unsupported("copy of an instance of %s, which defines __new__" % cref.qn)
+                if I.kind_of(cref.qn) != "plain":
+                    raise Unsupported("copy of an instance of %s (%s class)" % (cref.qn, I.kind_of(cref.qn)))
+            return I.find_dunder(x, "__deepcopy__" if deep else "__copy__")
+
+        def _rebuild(x, conv):
+            """a new instance of x's class with the state of x passed through conv (identity: shallow, deep copy: deep)"""
+            cref = x._k_cref
+            gs = I.find_dunder(x, "__getstate__")
+            ss_, _q = I.class_lookup(cref, "__setstate__")
+            if isinstance(x, Obj):
+                y = Obj(cref)
+            elif isinstance(x, IntInst):
+                y = IntInst(int(x), cref)
+            else:
+                y = TupleInst([conv(v) for v in tuple(x)], cref)
+            state = gs() if gs is not None else None
+            if ss_ is not None:
+                if gs is None:
+                    state = dict(x._k_attrs)
+                I.call(ss_, [y, conv(state)], {})
+                return y
+            if gs is None:
+                state = x._k_attrs
+            elif isinstance(state, tuple) and len(state) == 2 and all(s is None or isinstance(s, dict) for s in state):
+                state = {**(state[0] or {}), **(state[1] or {})}
+            if state is None:
+                return y
+            if not isinstance(state, dict):
+                raise Unsupported("copy of an instance of %s: __getstate__ returns a %s without __setstate__" % (cref.qn, type(state).__name__))
+            for k, v in conv(dict(state)).items():
+                y._k_attrs[k] = v
+            return y
+
+        def _deep(x, memo):
+            I.tick()
+            if isinstance(x, INST):
+                cref = x._k_cref
+                if isinstance(cref, NTBase):
+                    if id(x) in memo:
+                        return memo[id(x)]
+                    y = TupleInst([_deep(v, memo) for v in tuple(x)], cref)
+                elif I.kind_of(cref.qn) == "enum":
+                    return x
+                else:
+                    if id(x) in memo:
+                        return memo[id(x)]
+                    f = _copy_protocol(x, True)
+                    if f is not None:
+                        y = f(memo)
+                    elif isinstance(x, Obj):
+                        y = Obj(cref)
+                        memo[id(x)] = y  # registered before the state is copied: cycles through the instance terminate
+                        gs = I.find_dunder(x, "__getstate__")
+                        if gs is not None or I.class_lookup(cref, "__setstate__")[0] is not None:
+                            z = _rebuild(x, lambda v: _deep(v, memo))
+                            y._k_attrs.update(z._k_attrs)
+                        else:
+                            for k, v in list(x._k_attrs.items()):
+                                y._k_attrs[k] = _deep(v, memo)
+                    else:
+                        y = _rebuild(x, lambda v: _deep(v, memo))
+                memo[id(x)] = y
+                memo.setdefault(id(memo), []).append(x)
+                return y
+            if isinstance(x, _ATOMIC) or isinstance(x, (FuncVal, ClassRef, NTBase, Builtin, ModuleVal, ExtModule, Property)) or isinstance(x, (types.BuiltinFunctionType, types.FunctionType)):
+                return x
+            if id(x) in memo:
+                return memo[id(x)]
+            if type(x) is list:
+                y = []
+                memo[id(x)] = y
+                y.extend(_deep(v, memo) for v in x)
+            elif type(x) is dict or type(x) is collections.OrderedDict:
+                y = type(x)()
+                memo[id(x)] = y
+                for k, v in list(x.items()):
+                    y[_deep(k, memo)] = _deep(v, memo)
+            elif type(x) is collections.defaultdict:
+                y = collections.defaultdict(x.default_factory)
+                memo[id(x)] = y
+                for k, v in list(x.items()):
+                    y[_deep(k, memo)] = _deep(v, memo)
+            elif type(x) is set:
+                y = set()
+                memo[id(x)] = y
+                y.update(_deep(v, memo) for v in list(x))
+            elif type(x) is collections.deque:
+                y = collections.deque(maxlen=x.maxlen)
+                memo[id(x)] = y
+                y.extend(_deep(v, memo) for v in list(x))
+            elif type(x) is bytearray:
+                y = bytearray(x)
+            elif type(x) is tuple or type(x) is frozenset:
+                items = [_deep(v, memo) for v in x]
+                y = x if all(a is b for a, b in zip(items, x)) else type(x)(items)
+            else:
+                raise Unsupported("copy.deepcopy of a %s value" % type(x).__name__)
+            memo[id(x)] = y
+            memo.setdefault(id(memo), []).append(x)  # keeps the original alive, as Lib/copy.py does: ids stay unique
+            return y
+
+        def deepcopy(x, memo=None):
+            if memo is None:
+                memo = {}
+            elif not isinstance(memo, dict):
+                raise Unsupported("copy.deepcopy with a memo that is not a dict")
+            return _deep(x, memo)
+
+        def shallowcopy(x):
+            I.tick()
+            if isinstance(x, INST):
+                cref = x._k_cref
+                if isinstance(cref, NTBase) or I.kind_of(cref.qn) == "enum":
+                    return x
+                f = _copy_protocol(x, False)
+                if f is not None:
+                    return f()
+                return _rebuild(x, lambda v: v)
+            if isinstance(x, _ATOMIC) or isinstance(x, (FuncVal, ClassRef, NTBase, Builtin, ModuleVal, ExtModule, Property, tuple, frozenset)) or isinstance(x, (types.BuiltinFunctionType, types.FunctionType)):
+                return x
+            if type(x) in (list, dict, set, bytearray, collections.OrderedDict, collections.defaultdict, collections.deque):
+                return x.copy()
+            raise Unsupported("copy.copy of a %s value" % type(x).__name__)
+
         enum_mod = ExtModule("enum", {
             "auto": Builtin("auto", lambda: _AUTO), "Enum": Poison("enum.Enum used as a value"), "IntEnum": Poison("enum.IntEnum used as a value"),
             "unique": Builtin("unique", identity), "EnumMeta": Poison("EnumMeta"), "EnumType": Poison("EnumType"),
@@ -3345,6 +3536,7 @@ def _install(Interp):
             "struct": ExtModule("struct", {"pack": struct.pack, "unpack": struct.unpack, "unpack_from": struct.unpack_from, "calcsize": struct.calcsize, "error": struct.error,
                                            "Struct": struct.Struct, "pack_into": struct.pack_into, "iter_unpack": struct.iter_unpack}),
             "io": ExtModule("io", {"BytesIO": _io.BytesIO, "StringIO": _io.StringIO}),
+            "copy": ExtModule("copy", {"deepcopy": Builtin("deepcopy", deepcopy), "copy": Builtin("copy", shallowcopy)}),
             "types": ExtModule("types", {"MappingProxyType": types.MappingProxyType}),
             "codecs": ExtModule("codecs", {"encode": _codecs.encode, "decode": _codecs.decode, "utf_8_decode": _codecs.utf_8_decode, "utf_8_encode": _codecs.utf_8_encode}),
             "bisect": ExtModule("bisect", {n: getattr(_bisect, n) for n in ("bisect", "bisect_left", "bisect_right", "insort", "insort_left", "insort_right")}),
@@ -3352,7 +3544,7 @@ def _install(Interp):
                                                      "replace": Builtin("replace", dc_replace), "astuple": Builtin("astuple", dc_astuple), "asdict": Builtin("asdict", dc_asdict),
                                                      "is_dataclass": Builtin("is_dataclass", dc_is), "FrozenInstanceError": _dataclasses.FrozenInstanceError, "KW_ONLY": None, "MISSING": _dataclasses.MISSING}),
             "functools": ExtModule("functools", {"partial": functools.partial, "reduce": functools.reduce, "wraps": Builtin("wraps", wraps), "lru_cache": Builtin("lru_cache", lru_cache),
-                                                 "cache": Builtin("cache", identity), "cached_property": Builtin("cached_property", cached_property)}),
+                                                 "cache": Builtin("cache", memoised), "cached_property": Builtin("cached_property", cached_property)}),
             "itertools": ExtModule("itertools", {n: getattr(itertools, n) for n in ("chain", "count", "islice", "repeat", "accumulate", "takewhile", "dropwhile", "zip_longest", "product", "starmap", "groupby", "cycle", "compress", "filterfalse",
                                                                                          "tee", "permutations", "combinations", "combinations_with_replacement", "pairwise", "batched") if hasattr(itertools, n)}),
             "collections": ExtModule("collections", {"namedtuple": Builtin("namedtuple", namedtuple), "OrderedDict": collections.OrderedDict, "defaultdict": collections.defaultdict,
